@@ -3,6 +3,7 @@
 // from /repo on every run (vx/bundle.py).  Everything else is the hand-written
 // contract prelude: the *assumed* manager contract over the stateless term view
 // (DESIGN.md section 1) plus spec functions and lemmas.
+#![feature(allocator_api)]
 #![allow(unused_imports, dead_code, unused_variables, unused_mut, unused_parens, unused_braces, noop_method_call, unreachable_patterns)]
 use vstd::prelude::*;
 use std::borrow::Borrow;
@@ -418,6 +419,15 @@ pub proof fn distinguish(a: Tree, b: Tree) -> (env: Env)
     }
 }
 /// Bryant: semantically equal well-formed (ordered, reduced) diagrams are identical
+/// what `satisfiable()` / `valid()` decide: a reduced ordered diagram is the false (true) terminal iff no (every) assignment satisfies it
+//@lemma name=satisfiable_iff_not_ff props=C01,C02,C13
+pub proof fn satisfiable_iff_not_ff(t: Tree)
+    requires wf(t),
+    ensures (t != ff()) == (exists|env: Env| sem(t, env)), (t == Tree::Leaf(true)) == (forall|env: Env| sem(t, env)),
+{
+    if t != ff() { let e = distinguish(t, ff()); assert(sem(t, e)); }
+    if t != Tree::Leaf(true) { let e = distinguish(t, Tree::Leaf(true)); assert(!sem(t, e)); }
+}
 //@lemma name=canonicity props=C01,C03
 pub proof fn canonicity(a: Tree, b: Tree)
     requires wf(a), wf(b), forall|env: Env| sem(a, env) == sem(b, env),
@@ -878,6 +888,8 @@ pub trait Edge: Sized + Ord {
     spec fn view(&self) -> Tree;
     fn borrowed(&self) -> (r: Borrowed<'_, Self>) ensures r.view() == self.view();
     fn node_id(&self) -> (r: NodeID) ensures self.view() is Inner ==> tree_of(r) == self.view();
+    /// simple BDD edges carry the unit tag
+    fn tag(&self) -> (t: ()) { () }
 }
 pub trait LevelSpec { spec fn level_spec(&self) -> u32; }
 pub trait InnerNode<E: Edge>: Sized + LevelSpec {
@@ -927,6 +939,32 @@ impl FixedBitSet {
     pub open spec fn spec_contains(&self, i: int) -> bool { 0 <= i < self.bits@.len() && self.bits@[i] }
     pub fn contains(&self, bit: usize) -> (r: bool) ensures r == self.spec_contains(bit as int)
     { if bit < self.bits.len() { self.bits[bit] } else { false } }
+    /// ASSUMED (fixedbitset docs): a new set of `bits` bits, all clear
+    #[verifier::external_body]
+    pub fn with_capacity(bits: usize) -> (r: Self)
+        ensures r.bits@.len() == bits, forall|i: int| !(#[trigger] r.spec_contains(i))
+    { unimplemented!() }
+    /// ASSUMED (fixedbitset docs): sets bit `bit` to `enabled`; panics if `bit` is out of bounds
+    #[verifier::external_body]
+    pub fn set(&mut self, bit: usize, enabled: bool)
+        requires bit < old(self).bits@.len(),
+        ensures final(self).bits@ == old(self).bits@.update(bit as int, enabled),
+            forall|l: int| #[trigger] final(self).spec_contains(l) == (if l == bit as int { enabled } else { old(self).spec_contains(l) }),
+    { unimplemented!() }
+}
+/// stub of the `impl IntoIterator<Item = (VarNo, bool)>` argument of `eval_edge` (rule R10): `all()` is the sequence it
+/// yields, `done()` the prefix yielded so far (ASSUMED: std Iterator protocol)
+pub struct ArgIter { pub all: Ghost<Seq<(u32, bool)>>, pub done: Ghost<Seq<(u32, bool)>> }
+impl ArgIter {
+    pub open spec fn all(&self) -> Seq<(u32, bool)> { self.all@ }
+    pub open spec fn done(&self) -> Seq<(u32, bool)> { self.done@ }
+    #[verifier::external_body]
+    pub fn next(&mut self) -> (r: Option<(VarNo, bool)>)
+        ensures final(self).all() == old(self).all(),
+            r is None ==> old(self).done() == old(self).all() && final(self).done() == old(self).done(),
+            r is Some ==> old(self).done().len() < old(self).all().len() && r->Some_0 == old(self).all()[old(self).done().len() as int]
+                && final(self).done() == old(self).done().push(r->Some_0),
+    { unimplemented!() }
 }
 pub trait LevelView<E: Edge, N: InnerNode<E>> {
     spec fn level_no_spec(&self) -> u32;
@@ -981,6 +1019,21 @@ impl<'a, M: Manager> EdgeDropGuard<'a, M> {
     pub fn into_edge(self) -> (r: M::Edge) ensures r.view() == self.edge.view() { self.edge }
     pub fn borrowed(&self) -> (r: Borrowed<'_, M::Edge>) ensures r.view() == self.edge.view() { &self.edge }
 }
+impl<'a, M: Manager> std::ops::Deref for EdgeDropGuard<'a, M> {
+    type Target = M::Edge;
+    fn deref(&self) -> (r: &M::Edge) ensures r.view() == self.edge.view() { &self.edge }
+}
+/// stub of oxidd_core::util::EdgeVecDropGuard (a Vec of owned edges; Deref/DerefMut to the Vec are modelled by `push`)
+pub struct EdgeVecDropGuard<'a, M: Manager> { pub manager: &'a M, pub vec: Vec<M::Edge> }
+impl<'a, M: Manager> EdgeVecDropGuard<'a, M> {
+    pub open spec fn view(&self) -> Seq<M::Edge> { self.vec@ }
+    pub fn push(&mut self, e: M::Edge) ensures final(self)@ == old(self)@.push(e), { self.vec.push(e) }
+}
+/// `Vec::resize_with` (std): truncates or extends with values produced by `f`
+pub assume_specification<T, A: std::alloc::Allocator, F: FnMut() -> T> [Vec::<T, A>::resize_with] (v: &mut Vec<T, A>, new_len: usize, f: F)
+    ensures final(v)@.len() == new_len,
+        forall|i: int| 0 <= i < new_len && i < old(v)@.len() ==> final(v)@[i] == old(v)@[i],
+        forall|i: int| old(v)@.len() <= i < new_len ==> f.ensures((), #[trigger] final(v)@[i]);
 pub trait CacheOp: Copy {
     spec fn inv(self, operands: Seq<Tree>, n: int, res: Tree) -> bool;
     /// keys with numeric operands / several values
@@ -1018,6 +1071,19 @@ pub struct SequentialRecursor;
 impl<M: Manager> Recursor<M> for SequentialRecursor {
     open spec fn switch_spec(self) -> bool { false }
     fn should_switch_to_sequential(self) -> bool { false }
+}
+/// stub of the multi-threaded recursor used by the `mt` wrappers.  ASSUMED: the generic apply functions meet their
+/// contracts also when run with it (they are PROVED with the sequential recursor's methods inlined, rule R5; the
+/// fork/join bodies of ParallelRecursor are not verified).  What the `__mt` units prove is the wrapper glue.
+#[derive(Clone, Copy)]
+pub struct ParallelRecursor { pub depth: u32 }
+impl ParallelRecursor {
+    #[verifier::external_body]
+    pub fn new<M: Manager>(manager: &M) -> (r: Self) { unimplemented!() }
+}
+impl<M: Manager> Recursor<M> for ParallelRecursor {
+    open spec fn switch_spec(self) -> bool { self.depth == 0 }
+    fn should_switch_to_sequential(self) -> bool { self.depth == 0 }
 }
 
 
@@ -1100,6 +1166,115 @@ impl CacheOp for BDDOp {
     decreases set.view(),
 //@end
 // ---------- units: crates/oxidd-rules-bdd/src/simple/mod.rs ----------
+// ---------- eval (C02): the assignment denoted by the `(variable, value)` pairs, last value wins ----------
+pub open spec fn all_false() -> Env { |l: int| false }
+pub open spec fn all_true() -> Env { |l: int| true }
+/// `base` overridden by the pairs in order; `m` maps variable numbers to levels
+pub open spec fn aenv(args: Seq<(u32, bool)>, m: spec_fn(int) -> int, base: Env) -> Env decreases args.len() {
+    if args.len() == 0 { base } else { upd(aenv(args.drop_last(), m, base), m(args.last().0 as int), args.last().1) }
+}
+/// the pairs give a value to every level below `n`
+pub open spec fn total(args: Seq<(u32, bool)>, m: spec_fn(int) -> int, n: int) -> bool {
+    forall|l: int| 0 <= l < n ==> #[trigger] assigned(args, m, l)
+}
+pub open spec fn assigned(args: Seq<(u32, bool)>, m: spec_fn(int) -> int, l: int) -> bool {
+    exists|i: int| 0 <= i < args.len() && m((#[trigger] args[i]).0 as int) == l
+}
+/// C02 "eval agrees with the node-by-node interpretation": under a total assignment the result is the value of the
+/// diagram under that assignment (documented default for unassigned variables: false; irrelevant when total)
+pub open spec fn eval_post(t: Tree, args: Seq<(u32, bool)>, m: spec_fn(int) -> int, n: int, r: bool) -> bool {
+    total(args, m, n) ==> r == sem(t, aenv(args, m, all_false()))
+}
+pub broadcast proof fn lemma_aenv_push(s: Seq<(u32, bool)>, x: (u32, bool), m: spec_fn(int) -> int, base: Env)
+    ensures #[trigger] aenv(s.push(x), m, base) == upd(aenv(s, m, base), m(x.0 as int), x.1),
+{
+    assert(s.push(x).drop_last() =~= s);
+    assert(s.push(x).last() == x);
+}
+pub broadcast proof fn lemma_aenv_empty(m: spec_fn(int) -> int, base: Env)
+    ensures #[trigger] aenv(Seq::<(u32, bool)>::empty(), m, base) == base,
+{}
+pub proof fn lemma_aenv_base_irrelevant(args: Seq<(u32, bool)>, m: spec_fn(int) -> int, b1: Env, b2: Env, l: int, i: int)
+    requires 0 <= i < args.len(), m(args[i].0 as int) == l,
+    ensures aenv(args, m, b1)(l) == aenv(args, m, b2)(l),
+    decreases args.len(),
+{
+    if i < args.len() - 1 && m(args.last().0 as int) != l {
+        assert(args.drop_last()[i] == args[i]);
+        lemma_aenv_base_irrelevant(args.drop_last(), m, b1, b2, l, i);
+    }
+}
+pub open spec fn agree_below(e1: Env, e2: Env, n: int) -> bool { forall|i: int| 0 <= i < n ==> #[trigger] e1(i) == e2(i) }
+pub proof fn lemma_sem_agree_below(t: Tree, e1: Env, e2: Env, n: int)
+    requires below(t, n), agree_below(e1, e2, n),
+    ensures sem(t, e1) == sem(t, e2),
+    decreases t,
+{
+    match t {
+        Tree::Leaf(_) => {}
+        Tree::Inner(l, a, b) => { lemma_sem_agree_below(*a, e1, e2, n); lemma_sem_agree_below(*b, e1, e2, n); }
+    }
+}
+/// what the loop of `eval_edge` establishes (`ch` = the level -> decision map read off the bit set) implies eval_post
+pub broadcast proof fn lemma_eval_post(t: Tree, args: Seq<(u32, bool)>, m: spec_fn(int) -> int, n: int, ch: Env, r: bool)
+    requires below(t, n), forall|l: int| #[trigger] ch(l) == aenv(args, m, all_true())(l), r == sem(t, ch),
+    ensures #[trigger] eval_post(t, args, m, n, r), #[trigger] sem(t, ch) == r,
+{
+    if total(args, m, n) {
+        let e = aenv(args, m, all_false());
+        assert(agree_below(ch, e, n)) by {
+            assert forall|l: int| 0 <= l < n implies #[trigger] ch(l) == e(l) by {
+                assert(assigned(args, m, l));
+                let i = choose|i: int| 0 <= i < args.len() && m((#[trigger] args[i]).0 as int) == l;
+                lemma_aenv_base_irrelevant(args, m, all_true(), all_false(), l, i);
+            }
+        }
+        lemma_sem_agree_below(t, ch, e, n);
+    }
+}
+pub broadcast group eval_lemmas { lemma_aenv_push, lemma_aenv_empty, lemma_eval_post }
+/// variable number -> level map of a manager as a spec function
+pub open spec fn vl<M: Manager>(m: &M) -> spec_fn(int) -> int { |v: int| m.var_to_level_spec(v) }
+// ---------- uniform cube picking (C13 "selects models without bias"): float / RNG stubs ----------
+/// stub of `f64` as used by `pick_cube_uniform_edge` (ASSUMED: F64 counts are exact, division is an uninterpreted function
+/// `fdiv` on reals; rounding, NaN and infinities are not modelled)
+#[derive(Clone, Copy)]
+pub struct Fl { pub v: Ghost<real> }
+impl Fl { pub open spec fn rv(self) -> real { self.v@ } }
+pub uninterp spec fn fdiv(a: real, b: real) -> real;
+impl std::ops::Add for Fl { type Output = Fl; #[verifier::external_body] fn add(self, rhs: Fl) -> (r: Fl) { unimplemented!() } }
+impl vstd::std_specs::ops::AddSpecImpl for Fl {
+    open spec fn obeys_add_spec() -> bool { true }
+    open spec fn add_req(self, rhs: Fl) -> bool { true }
+    open spec fn add_spec(self, rhs: Fl) -> Fl { Fl { v: Ghost(self.rv() + rhs.rv()) } }
+}
+impl std::ops::Div for Fl { type Output = Fl; #[verifier::external_body] fn div(self, rhs: Fl) -> (r: Fl) { unimplemented!() } }
+impl vstd::std_specs::ops::DivSpecImpl for Fl {
+    open spec fn obeys_div_spec() -> bool { true }
+    open spec fn div_req(self, rhs: Fl) -> bool { true }
+    open spec fn div_spec(self, rhs: Fl) -> Fl { Fl { v: Ghost(fdiv(self.rv(), rhs.rv())) } }
+}
+impl PartialEq for Fl { #[verifier::external_body] fn eq(&self, o: &Fl) -> (b: bool) { unimplemented!() } }
+impl PartialOrd for Fl { #[verifier::external_body] fn partial_cmp(&self, o: &Fl) -> (r: Option<core::cmp::Ordering>) { unimplemented!() } }
+impl vstd::std_specs::cmp::PartialEqSpecImpl for Fl {
+    open spec fn obeys_eq_spec() -> bool { true }
+    open spec fn eq_spec(&self, o: &Fl) -> bool { self.rv() == o.rv() }
+}
+impl vstd::std_specs::cmp::PartialOrdSpecImpl for Fl {
+    open spec fn obeys_partial_cmp_spec() -> bool { true }
+    open spec fn partial_cmp_spec(&self, o: &Fl) -> Option<core::cmp::Ordering> {
+        if self.rv() < o.rv() { Some(core::cmp::Ordering::Less) } else if self.rv() == o.rv() { Some(core::cmp::Ordering::Equal) } else { Some(core::cmp::Ordering::Greater) }
+    }
+}
+/// stub of `oxidd_core::util::num::F64` (newtype around f64)
+pub struct F64(pub Fl);
+/// stub of `oxidd_core::util::Rng`: `draw()` is the next uniform sample in [0, 1)
+pub struct Rng { pub next: Ghost<real> }
+impl Rng {
+    pub open spec fn draw(&self) -> real { self.next@ }
+    #[verifier::external_body]
+    pub fn generate_f64(&mut self) -> (r: Fl) ensures r.rv() == old(self).draw(), 0real <= r.rv() < 1real { unimplemented!() }
+}
 mod simple {
 use super::*;
 broadcast use leaf_lemmas;
@@ -1189,6 +1364,31 @@ broadcast use {leaf_lemmas, quant_lemmas, quant2_lemmas, restrict_lemmas, subst_
     requires is_q(Q), edge_ok::<M::Edge>(), ok(f.view(), manager.num_levels_spec()), ok(g.view(), manager.num_levels_spec()), ok(vars.view(), manager.num_levels_spec()),
     ensures res is Ok ==> apply_quant_post(Q, bo_code(op), f.view(), g.view(), vars.view(), manager.num_levels_spec(), res->Ok_0.view()),
 //@end
+// ---------- substitute_prepare: the two loop bodies, outlined verbatim (rule R16; the iteration glue itself is not verified) ----------
+//@fn file=crates/oxidd-rules-bdd/src/simple/apply_rec.rs path=fn:substitute_prepare loopbody=0 looppat=(v,~r) rename=substitute_prepare__loop0 props=C04
+//@header
+fn substitute_prepare__loop0<'a, M>(manager: &'a M, subst: &mut Vec<Option<Borrowed<'a, M::Edge>>>, v: VarNo, r: Borrowed<'a, M::Edge>)
+where M: Manager<Terminal = BDDTerminal>, M::Edge: 'a, M::InnerNode: HasLevel,
+//@spec
+    requires (v as int) < manager.num_levels_spec(),
+    ensures ({ let level = manager.var_to_level_spec(v as int);
+        // the replacement is recorded at the level of `v`, nothing recorded before is lost
+        &&& final(subst)@.len() == (if level < old(subst)@.len() { old(subst)@.len() as int } else { level + 1 })
+        &&& final(subst)@[level] == Some(r)
+        &&& forall|i: int| 0 <= i < old(subst)@.len() && i != level ==> final(subst)@[i] == old(subst)@[i] }),
+        // not checked: that the gap entries created by `resize_with(.., || None)` are None (Verus derives no contract for the closure)
+//@end
+//@fn file=crates/oxidd-rules-bdd/src/simple/apply_rec.rs path=fn:substitute_prepare loopbody=1 looppat=(level,~e) rename=substitute_prepare__loop1 tail=Ok(()) props=C04,C14
+//@header
+fn substitute_prepare__loop1<'a, M>(manager: &'a M, res: &mut EdgeVecDropGuard<'a, M>, level: usize, e: Option<Borrowed<'a, M::Edge>>) -> (r: AllocResult<()>)
+where M: Manager<Terminal = BDDTerminal>, M::Edge: 'a, M::InnerNode: HasLevel,
+//@spec
+    requires (level as int) < manager.num_levels_spec() <= u32::MAX as int,
+    ensures r is Ok ==> final(res)@.len() == old(res)@.len() + 1
+        && (forall|i: int| 0 <= i < old(res)@.len() ==> final(res)@[i] == old(res)@[i])
+        // a listed level maps to its replacement, an unlisted level to the function of the variable AT THAT LEVEL
+        && final(res)@[old(res)@.len() as int].view() == (match e { Some(x) => x.view(), None => mk(level as u32, Tree::Leaf(true), Tree::Leaf(false)) }),
+//@end
 //@fn file=crates/oxidd-rules-bdd/src/simple/apply_rec.rs path=fn:substitute nodecr props=C04,C06
 //@spec
     requires edge_ok::<M::Edge>(), ok(f.view(), manager.num_levels_spec()), all_ok(subst@, manager.num_levels_spec()),
@@ -1203,9 +1403,25 @@ where M: Manager<Terminal = BDDTerminal> + HasApplyCache<M, BDDOp>, M::InnerNode
     requires edge_ok::<M::Edge>(), ok(root.view(), manager.num_levels_spec()), ok(vars.view(), manager.num_levels_spec()),
     ensures res is Ok ==> quant_post(BDDOp::And as u8, root.view(), vars.view(), manager.num_levels_spec(), res->Ok_0.view()),
 //@end
+//@fn file=crates/oxidd-rules-bdd/src/simple/apply_rec.rs path=mod:mt/impl:BooleanFunctionQuant~for~BDDFunctionMT<F>/fn:forall_edge name=forall_edge__mt props=C04
+//@header
+fn forall_edge__mt<M>(manager: &M, root: &M::Edge, vars: &M::Edge) -> (res: AllocResult<M::Edge>)
+where M: Manager<Terminal = BDDTerminal> + HasApplyCache<M, BDDOp>, M::InnerNode: HasLevel,
+//@spec
+    requires edge_ok::<M::Edge>(), ok(root.view(), manager.num_levels_spec()), ok(vars.view(), manager.num_levels_spec()),
+    ensures res is Ok ==> quant_post(BDDOp::And as u8, root.view(), vars.view(), manager.num_levels_spec(), res->Ok_0.view()),
+//@end
 //@fn file=crates/oxidd-rules-bdd/src/simple/apply_rec.rs path=impl:BooleanFunctionQuant~for~BDDFunction<F>/fn:apply_forall_edge props=C04
 //@header
 fn apply_forall_edge<M>(manager: &M, op: BooleanOperator, lhs: &M::Edge, rhs: &M::Edge, vars: &M::Edge) -> (res: AllocResult<M::Edge>)
+where M: Manager<Terminal = BDDTerminal> + HasApplyCache<M, BDDOp>, M::InnerNode: HasLevel,
+//@spec
+    requires edge_ok::<M::Edge>(), ok(lhs.view(), manager.num_levels_spec()), ok(rhs.view(), manager.num_levels_spec()), ok(vars.view(), manager.num_levels_spec()),
+    ensures res is Ok ==> apply_quant_post(BDDOp::And as u8, bo_code(op), lhs.view(), rhs.view(), vars.view(), manager.num_levels_spec(), res->Ok_0.view()),
+//@end
+//@fn file=crates/oxidd-rules-bdd/src/simple/apply_rec.rs path=mod:mt/impl:BooleanFunctionQuant~for~BDDFunctionMT<F>/fn:apply_forall_edge name=apply_forall_edge__mt props=C04
+//@header
+fn apply_forall_edge__mt<M>(manager: &M, op: BooleanOperator, lhs: &M::Edge, rhs: &M::Edge, vars: &M::Edge) -> (res: AllocResult<M::Edge>)
 where M: Manager<Terminal = BDDTerminal> + HasApplyCache<M, BDDOp>, M::InnerNode: HasLevel,
 //@spec
     requires edge_ok::<M::Edge>(), ok(lhs.view(), manager.num_levels_spec()), ok(rhs.view(), manager.num_levels_spec()), ok(vars.view(), manager.num_levels_spec()),
@@ -1219,9 +1435,25 @@ where M: Manager<Terminal = BDDTerminal> + HasApplyCache<M, BDDOp>, M::InnerNode
     requires edge_ok::<M::Edge>(), ok(root.view(), manager.num_levels_spec()), ok(vars.view(), manager.num_levels_spec()),
     ensures res is Ok ==> quant_post(BDDOp::Or as u8, root.view(), vars.view(), manager.num_levels_spec(), res->Ok_0.view()),
 //@end
+//@fn file=crates/oxidd-rules-bdd/src/simple/apply_rec.rs path=mod:mt/impl:BooleanFunctionQuant~for~BDDFunctionMT<F>/fn:exists_edge name=exists_edge__mt props=C04
+//@header
+fn exists_edge__mt<M>(manager: &M, root: &M::Edge, vars: &M::Edge) -> (res: AllocResult<M::Edge>)
+where M: Manager<Terminal = BDDTerminal> + HasApplyCache<M, BDDOp>, M::InnerNode: HasLevel,
+//@spec
+    requires edge_ok::<M::Edge>(), ok(root.view(), manager.num_levels_spec()), ok(vars.view(), manager.num_levels_spec()),
+    ensures res is Ok ==> quant_post(BDDOp::Or as u8, root.view(), vars.view(), manager.num_levels_spec(), res->Ok_0.view()),
+//@end
 //@fn file=crates/oxidd-rules-bdd/src/simple/apply_rec.rs path=impl:BooleanFunctionQuant~for~BDDFunction<F>/fn:apply_exists_edge props=C04
 //@header
 fn apply_exists_edge<M>(manager: &M, op: BooleanOperator, lhs: &M::Edge, rhs: &M::Edge, vars: &M::Edge) -> (res: AllocResult<M::Edge>)
+where M: Manager<Terminal = BDDTerminal> + HasApplyCache<M, BDDOp>, M::InnerNode: HasLevel,
+//@spec
+    requires edge_ok::<M::Edge>(), ok(lhs.view(), manager.num_levels_spec()), ok(rhs.view(), manager.num_levels_spec()), ok(vars.view(), manager.num_levels_spec()),
+    ensures res is Ok ==> apply_quant_post(BDDOp::Or as u8, bo_code(op), lhs.view(), rhs.view(), vars.view(), manager.num_levels_spec(), res->Ok_0.view()),
+//@end
+//@fn file=crates/oxidd-rules-bdd/src/simple/apply_rec.rs path=mod:mt/impl:BooleanFunctionQuant~for~BDDFunctionMT<F>/fn:apply_exists_edge name=apply_exists_edge__mt props=C04
+//@header
+fn apply_exists_edge__mt<M>(manager: &M, op: BooleanOperator, lhs: &M::Edge, rhs: &M::Edge, vars: &M::Edge) -> (res: AllocResult<M::Edge>)
 where M: Manager<Terminal = BDDTerminal> + HasApplyCache<M, BDDOp>, M::InnerNode: HasLevel,
 //@spec
     requires edge_ok::<M::Edge>(), ok(lhs.view(), manager.num_levels_spec()), ok(rhs.view(), manager.num_levels_spec()), ok(vars.view(), manager.num_levels_spec()),
@@ -1235,6 +1467,14 @@ where M: Manager<Terminal = BDDTerminal> + HasApplyCache<M, BDDOp>, M::InnerNode
     requires edge_ok::<M::Edge>(), ok(root.view(), manager.num_levels_spec()), ok(vars.view(), manager.num_levels_spec()),
     ensures res is Ok ==> quant_post(BDDOp::Xor as u8, root.view(), vars.view(), manager.num_levels_spec(), res->Ok_0.view()),
 //@end
+//@fn file=crates/oxidd-rules-bdd/src/simple/apply_rec.rs path=mod:mt/impl:BooleanFunctionQuant~for~BDDFunctionMT<F>/fn:unique_edge name=unique_edge__mt props=C04
+//@header
+fn unique_edge__mt<M>(manager: &M, root: &M::Edge, vars: &M::Edge) -> (res: AllocResult<M::Edge>)
+where M: Manager<Terminal = BDDTerminal> + HasApplyCache<M, BDDOp>, M::InnerNode: HasLevel,
+//@spec
+    requires edge_ok::<M::Edge>(), ok(root.view(), manager.num_levels_spec()), ok(vars.view(), manager.num_levels_spec()),
+    ensures res is Ok ==> quant_post(BDDOp::Xor as u8, root.view(), vars.view(), manager.num_levels_spec(), res->Ok_0.view()),
+//@end
 //@fn file=crates/oxidd-rules-bdd/src/simple/apply_rec.rs path=impl:BooleanFunctionQuant~for~BDDFunction<F>/fn:apply_unique_edge props=C04
 //@header
 fn apply_unique_edge<M>(manager: &M, op: BooleanOperator, lhs: &M::Edge, rhs: &M::Edge, vars: &M::Edge) -> (res: AllocResult<M::Edge>)
@@ -1243,9 +1483,25 @@ where M: Manager<Terminal = BDDTerminal> + HasApplyCache<M, BDDOp>, M::InnerNode
     requires edge_ok::<M::Edge>(), ok(lhs.view(), manager.num_levels_spec()), ok(rhs.view(), manager.num_levels_spec()), ok(vars.view(), manager.num_levels_spec()),
     ensures res is Ok ==> apply_quant_post(BDDOp::Xor as u8, bo_code(op), lhs.view(), rhs.view(), vars.view(), manager.num_levels_spec(), res->Ok_0.view()),
 //@end
+//@fn file=crates/oxidd-rules-bdd/src/simple/apply_rec.rs path=mod:mt/impl:BooleanFunctionQuant~for~BDDFunctionMT<F>/fn:apply_unique_edge name=apply_unique_edge__mt props=C04
+//@header
+fn apply_unique_edge__mt<M>(manager: &M, op: BooleanOperator, lhs: &M::Edge, rhs: &M::Edge, vars: &M::Edge) -> (res: AllocResult<M::Edge>)
+where M: Manager<Terminal = BDDTerminal> + HasApplyCache<M, BDDOp>, M::InnerNode: HasLevel,
+//@spec
+    requires edge_ok::<M::Edge>(), ok(lhs.view(), manager.num_levels_spec()), ok(rhs.view(), manager.num_levels_spec()), ok(vars.view(), manager.num_levels_spec()),
+    ensures res is Ok ==> apply_quant_post(BDDOp::Xor as u8, bo_code(op), lhs.view(), rhs.view(), vars.view(), manager.num_levels_spec(), res->Ok_0.view()),
+//@end
 //@fn file=crates/oxidd-rules-bdd/src/simple/apply_rec.rs path=impl:BooleanFunction~for~BDDFunction<F>/fn:restrict_edge props=C04
 //@header
 fn restrict_edge<M>(manager: &M, root: &M::Edge, vars: &M::Edge) -> (res: AllocResult<M::Edge>)
+where M: Manager<Terminal = BDDTerminal> + HasApplyCache<M, BDDOp>, M::InnerNode: HasLevel,
+//@spec
+    requires edge_ok::<M::Edge>(), ok(root.view(), manager.num_levels_spec()), ok(vars.view(), manager.num_levels_spec()),
+    ensures res is Ok ==> restrict_post(root.view(), vars.view(), manager.num_levels_spec(), res->Ok_0.view()),
+//@end
+//@fn file=crates/oxidd-rules-bdd/src/simple/apply_rec.rs path=mod:mt/impl:BooleanFunction~for~BDDFunctionMT<F>/fn:restrict_edge name=restrict_edge__mt props=C04
+//@header
+fn restrict_edge__mt<M>(manager: &M, root: &M::Edge, vars: &M::Edge) -> (res: AllocResult<M::Edge>)
 where M: Manager<Terminal = BDDTerminal> + HasApplyCache<M, BDDOp>, M::InnerNode: HasLevel,
 //@spec
     requires edge_ok::<M::Edge>(), ok(root.view(), manager.num_levels_spec()), ok(vars.view(), manager.num_levels_spec()),
@@ -1273,6 +1529,44 @@ where M: Manager<Terminal = BDDTerminal> + HasApplyCache<M, BDDOp>, M::InnerNode
     requires edge_ok::<M::Edge>(), ok(edge.view(), manager.num_levels_spec()), ok(literal_set.view(), manager.num_levels_spec()),
     ensures res is Ok ==> pick_ok(edge.view(), literal_set.view(), res->Ok_0.view()) && ok(res->Ok_0.view(), manager.num_levels_spec()),
     decreases edge.view(),
+//@end
+//@fn file=crates/oxidd-rules-bdd/src/simple/apply_rec.rs path=impl:BooleanFunction~for~BDDFunction<F>/fn:pick_cube_dd_edge hoist=inner>pick_cube_dd_edge__inner props=C13
+//@header
+fn pick_cube_dd_edge<M>(manager: &M, edge: &M::Edge, choice: impl FnMut(&M, &M::Edge, LevelNo) -> bool) -> (res: AllocResult<M::Edge>)
+where M: Manager<Terminal = BDDTerminal> + HasApplyCache<M, BDDOp>, M::InnerNode: HasLevel,
+//@spec
+    requires edge_ok::<M::Edge>(), ok(edge.view(), manager.num_levels_spec()),
+        forall|mm: &M, ee: &M::Edge, l: LevelNo| (ee.view() matches Tree::Inner(k, a, b) && k == l && *a != ff() && *b != ff()) ==> #[trigger] choice.requires((mm, ee, l)),
+    ensures res is Ok ==> pick_ok(edge.view(), Tree::Leaf(true), res->Ok_0.view()) && ok(res->Ok_0.view(), manager.num_levels_spec()),
+        res is Ok ==> forall|o: spec_fn(Tree, u32) -> bool| (forall|mm: &M, ee: &M::Edge, l: LevelNo, r: bool| #[trigger] choice.ensures((mm, ee, l), r) ==> r == o(ee.view(), l))
+            ==> #[trigger] pick_follows(edge.view(), o, res->Ok_0.view()),
+//@end
+//@fn file=crates/oxidd-rules-bdd/src/simple/apply_rec.rs path=mod:mt/impl:BooleanFunction~for~BDDFunctionMT<F>/fn:pick_cube_dd_edge name=pick_cube_dd_edge__mt props=C13 subst_text=BDDFunction::<F>::::=
+//@header
+fn pick_cube_dd_edge__mt<M>(manager: &M, edge: &M::Edge, choice: impl FnMut(&M, &M::Edge, LevelNo) -> bool) -> (res: AllocResult<M::Edge>)
+where M: Manager<Terminal = BDDTerminal> + HasApplyCache<M, BDDOp>, M::InnerNode: HasLevel,
+//@spec
+    requires edge_ok::<M::Edge>(), ok(edge.view(), manager.num_levels_spec()),
+        forall|mm: &M, ee: &M::Edge, l: LevelNo| (ee.view() matches Tree::Inner(k, a, b) && k == l && *a != ff() && *b != ff()) ==> #[trigger] choice.requires((mm, ee, l)),
+    ensures res is Ok ==> pick_ok(edge.view(), Tree::Leaf(true), res->Ok_0.view()) && ok(res->Ok_0.view(), manager.num_levels_spec()),
+        res is Ok ==> forall|o: spec_fn(Tree, u32) -> bool| (forall|mm: &M, ee: &M::Edge, l: LevelNo, r: bool| #[trigger] choice.ensures((mm, ee, l), r) ==> r == o(ee.view(), l))
+            ==> #[trigger] pick_follows(edge.view(), o, res->Ok_0.view()),
+//@end
+//@fn file=crates/oxidd-rules-bdd/src/simple/apply_rec.rs path=impl:BooleanFunction~for~BDDFunction<F>/fn:pick_cube_dd_set_edge hoist=inner>pick_cube_dd_set_edge__inner props=C13
+//@header
+fn pick_cube_dd_set_edge<M>(manager: &M, edge: &M::Edge, literal_set: &M::Edge) -> (res: AllocResult<M::Edge>)
+where M: Manager<Terminal = BDDTerminal> + HasApplyCache<M, BDDOp>, M::InnerNode: HasLevel,
+//@spec
+    requires edge_ok::<M::Edge>(), ok(edge.view(), manager.num_levels_spec()), ok(literal_set.view(), manager.num_levels_spec()),
+    ensures res is Ok ==> pick_ok(edge.view(), literal_set.view(), res->Ok_0.view()) && ok(res->Ok_0.view(), manager.num_levels_spec()),
+//@end
+//@fn file=crates/oxidd-rules-bdd/src/simple/apply_rec.rs path=mod:mt/impl:BooleanFunction~for~BDDFunctionMT<F>/fn:pick_cube_dd_set_edge name=pick_cube_dd_set_edge__mt props=C13 subst_text=BDDFunction::<F>::::=
+//@header
+fn pick_cube_dd_set_edge__mt<M>(manager: &M, edge: &M::Edge, literal_set: &M::Edge) -> (res: AllocResult<M::Edge>)
+where M: Manager<Terminal = BDDTerminal> + HasApplyCache<M, BDDOp>, M::InnerNode: HasLevel,
+//@spec
+    requires edge_ok::<M::Edge>(), ok(edge.view(), manager.num_levels_spec()), ok(literal_set.view(), manager.num_levels_spec()),
+    ensures res is Ok ==> pick_ok(edge.view(), literal_set.view(), res->Ok_0.view()) && ok(res->Ok_0.view(), manager.num_levels_spec()),
 //@end
 impl<N: SatCountNumber, S> SatCountCache<N, S> {
 //@fn file=crates/oxidd-core/src/util/mod.rs path=impl:BuildHasher>~SatCountCache<N,~S>/fn:clear_if_invalid props=C12,C06 vis=pub
@@ -1312,6 +1606,13 @@ fn sat_count_edge<M: Manager<Terminal = BDDTerminal>, N: SatCountNumber, S>(mana
     requires num_ok::<N>(), N::MIN_EXP == 0, ok(edge.view(), vars as int), cache_inv(old(cache), manager),
     ensures res.nv() == cnt(edge.view(), 0, vars as int), cache_inv(final(cache), manager),
 //@end
+//@fn file=crates/oxidd-rules-bdd/src/simple/apply_rec.rs path=mod:mt/impl:BooleanFunction~for~BDDFunctionMT<F>/fn:sat_count_edge name=sat_count_edge__mt props=C12 subst_text=BDDFunction::<F>::::=
+//@header
+fn sat_count_edge__mt<M: Manager<Terminal = BDDTerminal>, N: SatCountNumber, S>(manager: &M, edge: &M::Edge, vars: LevelNo, cache: &mut SatCountCache<N, S>) -> (res: N)
+//@spec
+    requires num_ok::<N>(), N::MIN_EXP == 0, ok(edge.view(), vars as int), cache_inv(old(cache), manager),
+    ensures res.nv() == cnt(edge.view(), 0, vars as int), cache_inv(final(cache), manager),
+//@end
 // ---------- cofactors (C02): DiagramRules::cofactor of BDDRules and the default methods cofactors_node / cofactors_edge ----------
 pub struct BDDRules;
 impl BDDRules {
@@ -1328,7 +1629,7 @@ pub fn rules_cofactor<E: Edge, N: InnerNode<E>>(tag: (), node: &N, n: usize) -> 
     requires n < 2,
     ensures r.view() == (if n == 0 { node.then_spec() } else { node.else_spec() }),
 { BDDRules::cofactor(tag, node, n) }
-//@fn file=crates/oxidd-core/src/function.rs path=trait:BooleanFunction/fn:cofactors_node ret=r props=C02 subst_text=let~cofactor~=~<<Self::Manager<@Q@id>~as~Manager>::Rules~as~DiagramRules<_,~_,~_>>::cofactor;::=;;cofactor(tag::=rules_cofactor(tag
+//@fn file=crates/oxidd-core/src/function.rs path=trait:BooleanFunction/fn:cofactors_node ret=r props=C02,C13 vis=pub subst_text=let~cofactor~=~<<Self::Manager<@Q@id>~as~Manager>::Rules~as~DiagramRules<_,~_,~_>>::cofactor;::=;;cofactor(tag::=rules_cofactor(tag
 //@header
 fn cofactors_node<'a, M>(tag: (), node: &'a M::InnerNode) -> (r: (Borrowed<'a, M::Edge>, Borrowed<'a, M::Edge>))
 where M: Manager<Terminal = BDDTerminal>,
@@ -1354,9 +1655,27 @@ where M: Manager<Terminal = BDDTerminal> + HasApplyCache<M, BDDOp>, M::InnerNode
     ensures res is Ok ==> ok(res->Ok_0.view(), manager.num_levels_spec())
         && forall|env: Env| #[trigger] sem(res->Ok_0.view(), env) == prop_and(sem(lhs.view(), env), sem(rhs.view(), env)),
 //@end
+//@fn file=crates/oxidd-rules-bdd/src/simple/apply_rec.rs path=mod:mt/impl:BooleanFunction~for~BDDFunctionMT<F>/fn:and_edge name=and_edge__mt props=C02
+//@header
+fn and_edge__mt<M>(manager: &M, lhs: &M::Edge, rhs: &M::Edge) -> (res: AllocResult<M::Edge>)
+where M: Manager<Terminal = BDDTerminal> + HasApplyCache<M, BDDOp>, M::InnerNode: HasLevel,
+//@spec
+    requires edge_ok::<M::Edge>(), ok(lhs.view(), manager.num_levels_spec()), ok(rhs.view(), manager.num_levels_spec()),
+    ensures res is Ok ==> ok(res->Ok_0.view(), manager.num_levels_spec())
+        && forall|env: Env| #[trigger] sem(res->Ok_0.view(), env) == prop_and(sem(lhs.view(), env), sem(rhs.view(), env)),
+//@end
 //@fn file=crates/oxidd-rules-bdd/src/simple/apply_rec.rs path=impl:BooleanFunction~for~BDDFunction<F>/fn:or_edge props=C02
 //@header
 fn or_edge<M>(manager: &M, lhs: &M::Edge, rhs: &M::Edge) -> (res: AllocResult<M::Edge>)
+where M: Manager<Terminal = BDDTerminal> + HasApplyCache<M, BDDOp>, M::InnerNode: HasLevel,
+//@spec
+    requires edge_ok::<M::Edge>(), ok(lhs.view(), manager.num_levels_spec()), ok(rhs.view(), manager.num_levels_spec()),
+    ensures res is Ok ==> ok(res->Ok_0.view(), manager.num_levels_spec())
+        && forall|env: Env| #[trigger] sem(res->Ok_0.view(), env) == prop_or(sem(lhs.view(), env), sem(rhs.view(), env)),
+//@end
+//@fn file=crates/oxidd-rules-bdd/src/simple/apply_rec.rs path=mod:mt/impl:BooleanFunction~for~BDDFunctionMT<F>/fn:or_edge name=or_edge__mt props=C02
+//@header
+fn or_edge__mt<M>(manager: &M, lhs: &M::Edge, rhs: &M::Edge) -> (res: AllocResult<M::Edge>)
 where M: Manager<Terminal = BDDTerminal> + HasApplyCache<M, BDDOp>, M::InnerNode: HasLevel,
 //@spec
     requires edge_ok::<M::Edge>(), ok(lhs.view(), manager.num_levels_spec()), ok(rhs.view(), manager.num_levels_spec()),
@@ -1372,9 +1691,27 @@ where M: Manager<Terminal = BDDTerminal> + HasApplyCache<M, BDDOp>, M::InnerNode
     ensures res is Ok ==> ok(res->Ok_0.view(), manager.num_levels_spec())
         && forall|env: Env| #[trigger] sem(res->Ok_0.view(), env) == prop_nand(sem(lhs.view(), env), sem(rhs.view(), env)),
 //@end
+//@fn file=crates/oxidd-rules-bdd/src/simple/apply_rec.rs path=mod:mt/impl:BooleanFunction~for~BDDFunctionMT<F>/fn:nand_edge name=nand_edge__mt props=C02
+//@header
+fn nand_edge__mt<M>(manager: &M, lhs: &M::Edge, rhs: &M::Edge) -> (res: AllocResult<M::Edge>)
+where M: Manager<Terminal = BDDTerminal> + HasApplyCache<M, BDDOp>, M::InnerNode: HasLevel,
+//@spec
+    requires edge_ok::<M::Edge>(), ok(lhs.view(), manager.num_levels_spec()), ok(rhs.view(), manager.num_levels_spec()),
+    ensures res is Ok ==> ok(res->Ok_0.view(), manager.num_levels_spec())
+        && forall|env: Env| #[trigger] sem(res->Ok_0.view(), env) == prop_nand(sem(lhs.view(), env), sem(rhs.view(), env)),
+//@end
 //@fn file=crates/oxidd-rules-bdd/src/simple/apply_rec.rs path=impl:BooleanFunction~for~BDDFunction<F>/fn:nor_edge props=C02
 //@header
 fn nor_edge<M>(manager: &M, lhs: &M::Edge, rhs: &M::Edge) -> (res: AllocResult<M::Edge>)
+where M: Manager<Terminal = BDDTerminal> + HasApplyCache<M, BDDOp>, M::InnerNode: HasLevel,
+//@spec
+    requires edge_ok::<M::Edge>(), ok(lhs.view(), manager.num_levels_spec()), ok(rhs.view(), manager.num_levels_spec()),
+    ensures res is Ok ==> ok(res->Ok_0.view(), manager.num_levels_spec())
+        && forall|env: Env| #[trigger] sem(res->Ok_0.view(), env) == prop_nor(sem(lhs.view(), env), sem(rhs.view(), env)),
+//@end
+//@fn file=crates/oxidd-rules-bdd/src/simple/apply_rec.rs path=mod:mt/impl:BooleanFunction~for~BDDFunctionMT<F>/fn:nor_edge name=nor_edge__mt props=C02
+//@header
+fn nor_edge__mt<M>(manager: &M, lhs: &M::Edge, rhs: &M::Edge) -> (res: AllocResult<M::Edge>)
 where M: Manager<Terminal = BDDTerminal> + HasApplyCache<M, BDDOp>, M::InnerNode: HasLevel,
 //@spec
     requires edge_ok::<M::Edge>(), ok(lhs.view(), manager.num_levels_spec()), ok(rhs.view(), manager.num_levels_spec()),
@@ -1390,9 +1727,27 @@ where M: Manager<Terminal = BDDTerminal> + HasApplyCache<M, BDDOp>, M::InnerNode
     ensures res is Ok ==> ok(res->Ok_0.view(), manager.num_levels_spec())
         && forall|env: Env| #[trigger] sem(res->Ok_0.view(), env) == prop_xor(sem(lhs.view(), env), sem(rhs.view(), env)),
 //@end
+//@fn file=crates/oxidd-rules-bdd/src/simple/apply_rec.rs path=mod:mt/impl:BooleanFunction~for~BDDFunctionMT<F>/fn:xor_edge name=xor_edge__mt props=C02
+//@header
+fn xor_edge__mt<M>(manager: &M, lhs: &M::Edge, rhs: &M::Edge) -> (res: AllocResult<M::Edge>)
+where M: Manager<Terminal = BDDTerminal> + HasApplyCache<M, BDDOp>, M::InnerNode: HasLevel,
+//@spec
+    requires edge_ok::<M::Edge>(), ok(lhs.view(), manager.num_levels_spec()), ok(rhs.view(), manager.num_levels_spec()),
+    ensures res is Ok ==> ok(res->Ok_0.view(), manager.num_levels_spec())
+        && forall|env: Env| #[trigger] sem(res->Ok_0.view(), env) == prop_xor(sem(lhs.view(), env), sem(rhs.view(), env)),
+//@end
 //@fn file=crates/oxidd-rules-bdd/src/simple/apply_rec.rs path=impl:BooleanFunction~for~BDDFunction<F>/fn:equiv_edge props=C02
 //@header
 fn equiv_edge<M>(manager: &M, lhs: &M::Edge, rhs: &M::Edge) -> (res: AllocResult<M::Edge>)
+where M: Manager<Terminal = BDDTerminal> + HasApplyCache<M, BDDOp>, M::InnerNode: HasLevel,
+//@spec
+    requires edge_ok::<M::Edge>(), ok(lhs.view(), manager.num_levels_spec()), ok(rhs.view(), manager.num_levels_spec()),
+    ensures res is Ok ==> ok(res->Ok_0.view(), manager.num_levels_spec())
+        && forall|env: Env| #[trigger] sem(res->Ok_0.view(), env) == prop_equiv(sem(lhs.view(), env), sem(rhs.view(), env)),
+//@end
+//@fn file=crates/oxidd-rules-bdd/src/simple/apply_rec.rs path=mod:mt/impl:BooleanFunction~for~BDDFunctionMT<F>/fn:equiv_edge name=equiv_edge__mt props=C02
+//@header
+fn equiv_edge__mt<M>(manager: &M, lhs: &M::Edge, rhs: &M::Edge) -> (res: AllocResult<M::Edge>)
 where M: Manager<Terminal = BDDTerminal> + HasApplyCache<M, BDDOp>, M::InnerNode: HasLevel,
 //@spec
     requires edge_ok::<M::Edge>(), ok(lhs.view(), manager.num_levels_spec()), ok(rhs.view(), manager.num_levels_spec()),
@@ -1408,9 +1763,27 @@ where M: Manager<Terminal = BDDTerminal> + HasApplyCache<M, BDDOp>, M::InnerNode
     ensures res is Ok ==> ok(res->Ok_0.view(), manager.num_levels_spec())
         && forall|env: Env| #[trigger] sem(res->Ok_0.view(), env) == prop_imp(sem(lhs.view(), env), sem(rhs.view(), env)),
 //@end
+//@fn file=crates/oxidd-rules-bdd/src/simple/apply_rec.rs path=mod:mt/impl:BooleanFunction~for~BDDFunctionMT<F>/fn:imp_edge name=imp_edge__mt props=C02
+//@header
+fn imp_edge__mt<M>(manager: &M, lhs: &M::Edge, rhs: &M::Edge) -> (res: AllocResult<M::Edge>)
+where M: Manager<Terminal = BDDTerminal> + HasApplyCache<M, BDDOp>, M::InnerNode: HasLevel,
+//@spec
+    requires edge_ok::<M::Edge>(), ok(lhs.view(), manager.num_levels_spec()), ok(rhs.view(), manager.num_levels_spec()),
+    ensures res is Ok ==> ok(res->Ok_0.view(), manager.num_levels_spec())
+        && forall|env: Env| #[trigger] sem(res->Ok_0.view(), env) == prop_imp(sem(lhs.view(), env), sem(rhs.view(), env)),
+//@end
 //@fn file=crates/oxidd-rules-bdd/src/simple/apply_rec.rs path=impl:BooleanFunction~for~BDDFunction<F>/fn:imp_strict_edge props=C02
 //@header
 fn imp_strict_edge<M>(manager: &M, lhs: &M::Edge, rhs: &M::Edge) -> (res: AllocResult<M::Edge>)
+where M: Manager<Terminal = BDDTerminal> + HasApplyCache<M, BDDOp>, M::InnerNode: HasLevel,
+//@spec
+    requires edge_ok::<M::Edge>(), ok(lhs.view(), manager.num_levels_spec()), ok(rhs.view(), manager.num_levels_spec()),
+    ensures res is Ok ==> ok(res->Ok_0.view(), manager.num_levels_spec())
+        && forall|env: Env| #[trigger] sem(res->Ok_0.view(), env) == prop_imp_strict(sem(lhs.view(), env), sem(rhs.view(), env)),
+//@end
+//@fn file=crates/oxidd-rules-bdd/src/simple/apply_rec.rs path=mod:mt/impl:BooleanFunction~for~BDDFunctionMT<F>/fn:imp_strict_edge name=imp_strict_edge__mt props=C02
+//@header
+fn imp_strict_edge__mt<M>(manager: &M, lhs: &M::Edge, rhs: &M::Edge) -> (res: AllocResult<M::Edge>)
 where M: Manager<Terminal = BDDTerminal> + HasApplyCache<M, BDDOp>, M::InnerNode: HasLevel,
 //@spec
     requires edge_ok::<M::Edge>(), ok(lhs.view(), manager.num_levels_spec()), ok(rhs.view(), manager.num_levels_spec()),
@@ -1426,6 +1799,15 @@ where M: Manager<Terminal = BDDTerminal> + HasApplyCache<M, BDDOp>, M::InnerNode
     ensures res is Ok ==> ok(res->Ok_0.view(), manager.num_levels_spec())
         && forall|env: Env| #[trigger] sem(res->Ok_0.view(), env) == !sem(edge.view(), env),
 //@end
+//@fn file=crates/oxidd-rules-bdd/src/simple/apply_rec.rs path=mod:mt/impl:BooleanFunction~for~BDDFunctionMT<F>/fn:not_edge name=not_edge__mt props=C02
+//@header
+fn not_edge__mt<M>(manager: &M, edge: &M::Edge) -> (res: AllocResult<M::Edge>)
+where M: Manager<Terminal = BDDTerminal> + HasApplyCache<M, BDDOp>, M::InnerNode: HasLevel,
+//@spec
+    requires edge_ok::<M::Edge>(), ok(edge.view(), manager.num_levels_spec()),
+    ensures res is Ok ==> ok(res->Ok_0.view(), manager.num_levels_spec())
+        && forall|env: Env| #[trigger] sem(res->Ok_0.view(), env) == !sem(edge.view(), env),
+//@end
 //@fn file=crates/oxidd-rules-bdd/src/simple/apply_rec.rs path=impl:BooleanFunction~for~BDDFunction<F>/fn:ite_edge props=C02
 //@header
 fn ite_edge<M>(manager: &M, if_edge: &M::Edge, then_edge: &M::Edge, else_edge: &M::Edge) -> (res: AllocResult<M::Edge>)
@@ -1435,9 +1817,27 @@ where M: Manager<Terminal = BDDTerminal> + HasApplyCache<M, BDDOp>, M::InnerNode
     ensures res is Ok ==> ok(res->Ok_0.view(), manager.num_levels_spec())
         && forall|env: Env| #[trigger] sem(res->Ok_0.view(), env) == (if sem(if_edge.view(), env) { sem(then_edge.view(), env) } else { sem(else_edge.view(), env) }),
 //@end
+//@fn file=crates/oxidd-rules-bdd/src/simple/apply_rec.rs path=mod:mt/impl:BooleanFunction~for~BDDFunctionMT<F>/fn:ite_edge name=ite_edge__mt props=C02
+//@header
+fn ite_edge__mt<M>(manager: &M, f: &M::Edge, g: &M::Edge, h: &M::Edge) -> (res: AllocResult<M::Edge>)
+where M: Manager<Terminal = BDDTerminal> + HasApplyCache<M, BDDOp>, M::InnerNode: HasLevel,
+//@spec
+    requires edge_ok::<M::Edge>(), ok(f.view(), manager.num_levels_spec()), ok(g.view(), manager.num_levels_spec()), ok(h.view(), manager.num_levels_spec()),
+    ensures res is Ok ==> ok(res->Ok_0.view(), manager.num_levels_spec())
+        && forall|env: Env| #[trigger] sem(res->Ok_0.view(), env) == (if sem(f.view(), env) { sem(g.view(), env) } else { sem(h.view(), env) }),
+//@end
 //@fn file=crates/oxidd-rules-bdd/src/simple/apply_rec.rs path=impl:BooleanFunction~for~BDDFunction<F>/fn:var_edge props=C02,C03
 //@header
 fn var_edge<M>(manager: &M, var: VarNo) -> (res: AllocResult<M::Edge>)
+where M: Manager<Terminal = BDDTerminal> + HasApplyCache<M, BDDOp>, M::InnerNode: HasLevel,
+//@spec
+    requires (var as int) < manager.num_levels_spec(),
+    ensures res is Ok ==> ok(res->Ok_0.view(), manager.num_levels_spec())
+        && forall|env: Env| #[trigger] sem(res->Ok_0.view(), env) == env(manager.var_to_level_spec(var as int)),
+//@end
+//@fn file=crates/oxidd-rules-bdd/src/simple/apply_rec.rs path=mod:mt/impl:BooleanFunction~for~BDDFunctionMT<F>/fn:var_edge name=var_edge__mt props=C02,C03 subst_text=BDDFunction::<F>::::=
+//@header
+fn var_edge__mt<M>(manager: &M, var: VarNo) -> (res: AllocResult<M::Edge>)
 where M: Manager<Terminal = BDDTerminal> + HasApplyCache<M, BDDOp>, M::InnerNode: HasLevel,
 //@spec
     requires (var as int) < manager.num_levels_spec(),
@@ -1453,9 +1853,25 @@ where M: Manager<Terminal = BDDTerminal> + HasApplyCache<M, BDDOp>, M::InnerNode
     ensures res is Ok ==> ok(res->Ok_0.view(), manager.num_levels_spec())
         && forall|env: Env| #[trigger] sem(res->Ok_0.view(), env) == !env(manager.var_to_level_spec(var as int)),
 //@end
+//@fn file=crates/oxidd-rules-bdd/src/simple/apply_rec.rs path=mod:mt/impl:BooleanFunction~for~BDDFunctionMT<F>/fn:not_var_edge name=not_var_edge__mt props=C02,C03 subst_text=BDDFunction::<F>::::=
+//@header
+fn not_var_edge__mt<M>(manager: &M, var: VarNo) -> (res: AllocResult<M::Edge>)
+where M: Manager<Terminal = BDDTerminal> + HasApplyCache<M, BDDOp>, M::InnerNode: HasLevel,
+//@spec
+    requires (var as int) < manager.num_levels_spec(),
+    ensures res is Ok ==> ok(res->Ok_0.view(), manager.num_levels_spec())
+        && forall|env: Env| #[trigger] sem(res->Ok_0.view(), env) == !env(manager.var_to_level_spec(var as int)),
+//@end
 //@fn file=crates/oxidd-rules-bdd/src/simple/apply_rec.rs path=impl:BooleanFunction~for~BDDFunction<F>/fn:f_edge props=C02
 //@header
 fn f_edge<M>(manager: &M) -> (res: M::Edge)
+where M: Manager<Terminal = BDDTerminal> + HasApplyCache<M, BDDOp>, M::InnerNode: HasLevel,
+//@spec
+    ensures res.view() == Tree::Leaf(false),
+//@end
+//@fn file=crates/oxidd-rules-bdd/src/simple/apply_rec.rs path=mod:mt/impl:BooleanFunction~for~BDDFunctionMT<F>/fn:f_edge name=f_edge__mt props=C02
+//@header
+fn f_edge__mt<M>(manager: &M) -> (res: M::Edge)
 where M: Manager<Terminal = BDDTerminal> + HasApplyCache<M, BDDOp>, M::InnerNode: HasLevel,
 //@spec
     ensures res.view() == Tree::Leaf(false),
@@ -1467,11 +1883,12 @@ where M: Manager<Terminal = BDDTerminal> + HasApplyCache<M, BDDOp>, M::InnerNode
 //@spec
     ensures res.view() == Tree::Leaf(true),
 //@end
-//@fn file=crates/oxidd-rules-bdd/src/simple/apply_rec.rs path=impl:BooleanFunction~for~BDDFunction<F>/fn:eval_edge/fn:inner rename=eval_edge__inner ret=r props=C02
+//@fn file=crates/oxidd-rules-bdd/src/simple/apply_rec.rs path=mod:mt/impl:BooleanFunction~for~BDDFunctionMT<F>/fn:t_edge name=t_edge__mt props=C02
+//@header
+fn t_edge__mt<M>(manager: &M) -> (res: M::Edge)
+where M: Manager<Terminal = BDDTerminal> + HasApplyCache<M, BDDOp>, M::InnerNode: HasLevel,
 //@spec
-    requires wf(edge.view()),
-    ensures r == sem(edge.view(), |l: int| !choices.spec_contains(l)),
-    decreases edge.view(),
+    ensures res.view() == Tree::Leaf(true),
 //@end
 // ---------- default methods of BooleanFunction / BooleanFunctionQuant in oxidd-core/src/function.rs (the user-facing API) ----------
 //@fn file=crates/oxidd-core/src/function.rs path=trait:BooleanFunction/fn:and rename=api_and selfcall=Self::> withmgr=this props=C02
@@ -1619,7 +2036,116 @@ where M: Manager<Terminal = BDDTerminal> + HasApplyCache<M, BDDOp>, M::InnerNode
     requires edge_ok::<M::Edge>(), ok(this.view(), manager.num_levels_spec()), ok(rhs.view(), manager.num_levels_spec()), ok(vars.view(), manager.num_levels_spec()),
     ensures res is Ok ==> apply_quant_post(BDDOp::Xor as u8, bo_code(op), this.view(), rhs.view(), vars.view(), manager.num_levels_spec(), res->Ok_0.view()),
 //@end
+//@fn file=crates/oxidd-core/src/function.rs path=trait:BooleanFunction/fn:satisfiable rename=api_satisfiable selfcall=Self::> withmgr=this ret=r props=C01,C02
+//@header
+fn api_satisfiable<M>(manager: &M, this: &M::Edge) -> (r: bool)
+where M: Manager<Terminal = BDDTerminal> + HasApplyCache<M, BDDOp>, M::InnerNode: HasLevel,
+//@spec
+    requires edge_ok::<M::Edge>(),
+    // "is not the false function" (by canonicity: iff some assignment satisfies it, lemma satisfiable_iff_not_ff)
+    ensures r == (this.view() != ff()),
+//@end
+//@fn file=crates/oxidd-core/src/function.rs path=trait:BooleanFunction/fn:valid rename=api_valid selfcall=Self::> withmgr=this ret=r props=C01,C02
+//@header
+fn api_valid<M>(manager: &M, this: &M::Edge) -> (r: bool)
+where M: Manager<Terminal = BDDTerminal> + HasApplyCache<M, BDDOp>, M::InnerNode: HasLevel,
+//@spec
+    requires edge_ok::<M::Edge>(),
+    ensures r == (this.view() == Tree::Leaf(true)),
+//@end
+//@fn file=crates/oxidd-core/src/function.rs path=trait:BooleanFunction/fn:pick_cube_dd_set rename=api_pick_cube_dd_set selfcall=Self::> withmgr=this props=C13
+//@header
+fn api_pick_cube_dd_set<M>(manager: &M, this: &M::Edge, literal_set: &M::Edge) -> (res: AllocResult<M::Edge>)
+where M: Manager<Terminal = BDDTerminal> + HasApplyCache<M, BDDOp>, M::InnerNode: HasLevel,
+//@spec
+    requires edge_ok::<M::Edge>(), ok(this.view(), manager.num_levels_spec()), ok(literal_set.view(), manager.num_levels_spec()),
+    ensures res is Ok ==> pick_ok(this.view(), literal_set.view(), res->Ok_0.view()) && ok(res->Ok_0.view(), manager.num_levels_spec()),
+//@end
+//@fn file=crates/oxidd-core/src/function.rs path=trait:BooleanFunction/fn:var name=api_var selfcall=Self::> props=C02
+//@header
+fn api_var<M>(manager: &M, var: VarNo) -> (res: AllocResult<M::Edge>)
+where M: Manager<Terminal = BDDTerminal> + HasApplyCache<M, BDDOp>, M::InnerNode: HasLevel,
+//@spec
+    requires (var as int) < manager.num_levels_spec(),
+    ensures res is Ok ==> ok(res->Ok_0.view(), manager.num_levels_spec())
+        && forall|env: Env| #[trigger] sem(res->Ok_0.view(), env) == env(manager.var_to_level_spec(var as int)),
+//@end
+//@fn file=crates/oxidd-core/src/function.rs path=trait:BooleanFunction/fn:not_var name=api_not_var selfcall=Self::> props=C02
+//@header
+fn api_not_var<M>(manager: &M, var: VarNo) -> (res: AllocResult<M::Edge>)
+where M: Manager<Terminal = BDDTerminal> + HasApplyCache<M, BDDOp>, M::InnerNode: HasLevel,
+//@spec
+    requires (var as int) < manager.num_levels_spec(),
+    ensures res is Ok ==> ok(res->Ok_0.view(), manager.num_levels_spec())
+        && forall|env: Env| #[trigger] sem(res->Ok_0.view(), env) == !env(manager.var_to_level_spec(var as int)),
+//@end
 } // mod apply_rec
+mod apply_rec_e {
+use super::*;
+broadcast use {leaf_lemmas, eval_lemmas};
+//@fn file=crates/oxidd-rules-bdd/src/simple/apply_rec.rs path=impl:BooleanFunction~for~BDDFunction<F>/fn:eval_edge/fn:inner rename=eval_edge__inner ret=r props=C02
+//@spec
+    requires wf(edge.view()),
+    ensures r == sem(edge.view(), |l: int| !choices.spec_contains(l)),
+    decreases edge.view(),
+//@end
+//@fn file=crates/oxidd-rules-bdd/src/simple/apply_rec.rs path=impl:BooleanFunction~for~BDDFunction<F>/fn:eval_edge hoist=inner>eval_edge__inner forinv=0 ret=r props=C02
+//@header
+fn eval_edge<M>(manager: &M, edge: &M::Edge, args: ArgIter) -> (r: bool)
+where M: Manager<Terminal = BDDTerminal> + HasApplyCache<M, BDDOp>, M::InnerNode: HasLevel,
+//@spec
+    requires ok(edge.view(), manager.num_levels_spec()), args.done() == Seq::<(u32, bool)>::empty(),
+        // documented panic otherwise
+        forall|i: int| 0 <= i < args.all().len() ==> (#[trigger] args.all()[i].0 as int) < manager.num_levels_spec(),
+    ensures eval_post(edge.view(), args.all(), vl(manager), manager.num_levels_spec(), r),
+//@loop
+    invariant
+        iter__0.all() == args.all(), iter__0.done().len() <= iter__0.all().len(),
+        forall|i: int| 0 <= i < iter__0.all().len() ==> (#[trigger] iter__0.all()[i].0 as int) < manager.num_levels_spec(),
+        choices.bits@.len() == manager.num_levels_spec(),
+        forall|l: int| !(#[trigger] choices.spec_contains(l)) == aenv(iter__0.done(), vl(manager), all_true())(l),
+    ensures
+        iter__0.all() == args.all(),
+        forall|l: int| !(#[trigger] choices.spec_contains(l)) == aenv(iter__0.all(), vl(manager), all_true())(l),
+    decreases iter__0.all().len() - iter__0.done().len(),
+//@end
+//@fn file=crates/oxidd-rules-bdd/src/simple/apply_rec.rs path=mod:mt/impl:BooleanFunction~for~BDDFunctionMT<F>/fn:eval_edge name=eval_edge__mt props=C02 ret=r subst_text=BDDFunction::<F>::::=
+//@header
+fn eval_edge__mt<M>(manager: &M, edge: &M::Edge, args: ArgIter) -> (r: bool)
+where M: Manager<Terminal = BDDTerminal> + HasApplyCache<M, BDDOp>, M::InnerNode: HasLevel,
+//@spec
+    requires ok(edge.view(), manager.num_levels_spec()), args.done() == Seq::<(u32, bool)>::empty(),
+        // documented panic otherwise
+        forall|i: int| 0 <= i < args.all().len() ==> (#[trigger] args.all()[i].0 as int) < manager.num_levels_spec(),
+    ensures eval_post(edge.view(), args.all(), vl(manager), manager.num_levels_spec(), r),
+//@end
+} // mod apply_rec_e
+mod apply_rec_u {
+use super::*;
+use super::apply_rec::*;
+broadcast use leaf_lemmas;
+/// ASSUMED: `sat_count_edge::<F64>` returns the exact model count (the floating-point path of sat_count_edge — scaled
+/// terminal value, MIN_EXP != 0 — is not verified; the integer path is, see sat_count_edge)
+#[verifier::external_body]
+fn sat_count_edge_f64<M: Manager<Terminal = BDDTerminal>, S>(manager: &M, edge: &M::Edge, vars: LevelNo, cache: &mut SatCountCache<F64, S>) -> (res: F64)
+    requires ok(edge.view(), vars as int),
+    ensures res.0.rv() == cnt(edge.view(), 0, vars as int) as real,
+{ unimplemented!() }
+// the choice closure of `pick_cube_uniform_edge` (rule R19): the then-branch is taken iff the uniform draw is below
+// #models(then-cofactor) / (#models(then-cofactor) + #models(else-cofactor))
+//@fn file=crates/oxidd-core/src/function.rs path=trait:BooleanFunction/fn:pick_cube_uniform_edge name=pick_cube_uniform_edge__choice closure=0 cparams=manager,~edge,~_ ret=r props=C13 selfcall=Self::cofactors_node(>cofactors_node::<M>( subst_text=Self::sat_count_edge(::=sat_count_edge_f64(;;rng.generate::<f64>()::=rng.generate_f64()
+//@header
+fn pick_cube_uniform_edge__choice<M, S>(manager: &M, edge: &M::Edge, vars: LevelNo, cache: &mut SatCountCache<F64, S>, rng: &mut Rng) -> (r: bool)
+where M: Manager<Terminal = BDDTerminal>, M::InnerNode: HasLevel,
+//@spec
+    requires edge.view() is Inner, ok(edge.view(), manager.num_levels_spec()), vars as int == manager.num_levels_spec(),
+    ensures ({
+        let tc = cnt(then_of(edge.view()), 0, vars as int) as real;
+        let ec = cnt(else_of(edge.view()), 0, vars as int) as real;
+        r == (old(rng).draw() < fdiv(tc, tc + ec))
+    }),
+//@end
+} // mod apply_rec_u
 } // mod simple
 } // verus!
 fn main() {}
